@@ -14,11 +14,13 @@ ACL_BODIES = {
             "B2": ("extended", ["permit ip object-group G1 any", "permit udp any object-group G2 eq 53"]),
             "S1": ("standard", ["permit 10.0.0.0 0.0.0.255", "deny any"]),
             "C-3": ("extended", ["permit icmp any any"]),
-            "D4": ("extended", ["permit ip object-group G1 object-group G1", "deny tcp object-group G2 object-group G1 eq 22", "permit ip object-group G1 object-group G2"])},
+            "D4": ("extended", ["permit ip object-group G1 object-group G1", "deny tcp object-group G2 object-group G1 eq 22", "permit ip object-group G1 object-group G2"]),
+            "E5": ("extended", ["remark ----------", "permit ip any any", "remark ----------", "permit ip any any", "remark ----------"])},
     "nxos": {"A1": ("extended", ["10 permit tcp 10.0.0.1/32 any eq 80", "20 remark r one", "30 deny ip any any log"]),
              "B2": ("extended", ["permit ip addrgroup G1 any", "permit udp any addrgroup G2 eq 53"]),
              "C-3": ("extended", ["permit icmp any any"]),
-             "D4": ("extended", ["permit ip addrgroup G1 addrgroup G1", "deny tcp addrgroup G2 addrgroup G1 eq 22", "permit ip addrgroup G1 addrgroup G2"])},
+             "D4": ("extended", ["permit ip addrgroup G1 addrgroup G1", "deny tcp addrgroup G2 addrgroup G1 eq 22", "permit ip addrgroup G1 addrgroup G2"]),
+             "E5": ("extended", ["remark ----------", "permit ip any any", "remark ----------", "permit ip any any", "remark ----------"])},
 }
 GROUP_BODIES = {
     "ios": {"G1": ["host 10.0.0.1", "10.0.0.0 255.255.255.0"], "G2": ["10.1.0.0 255.255.0.0", "description members of G2"]},
@@ -109,7 +111,11 @@ def check_cfg(arg):
                 if l.split() != b.split():
                     bad("items", f"ACL {a.name}: remark {l!r} vs {b!r}")
             else:
-                x, y = cisco_ref.read_ace(l, platform), cisco_ref.read_ace(b, platform)
+                try:
+                    x, y = cisco_ref.read_ace(l, platform), cisco_ref.read_ace(b, platform)
+                except cisco_ref.RefError:
+                    bad("items", f"ACL {a.name}: item {l!r} stands where the configuration has {b!r}")
+                    continue
                 if sets.sem_equal(x.sem, y.sem) is not None or x.sequence != y.sequence:
                     bad("items", f"ACL {a.name}: entry {l!r} does not mean {b!r}")
         want_in = sorted(f"interface {i}" for i, binds in intfs for n, d in binds if n == a.name and d == "in")
